@@ -478,6 +478,12 @@ def modDeregisterP (m : ModId) : Prog Int := modDeregCore ctxDeregisterP m
 def srcPrio (s : St) (e : Evt) : Option Prio := e.src.bind fun i => (s.srcs[i]?).map (·.prio)
 def srcRole (s : St) (e : Evt) : Role := (e.src.bind fun i => (s.srcs[i]?).map (·.role)).getD .user
 
+/-- `msg->userdata = src->userptr`: an event carries the user data given when its source was registered -/
+def stampEvt (s : St) (e : Evt) : Evt :=
+  match e.src.bind (fun i => s.srcs[i]?) with
+  | some x => { e with userdata := x.userptr }
+  | none => e
+
 /-- first half of `push_evt`: internal events are dropped (the bucket timer refills one token), others are queued -/
 def pushEvtStore (s : St) (m : ModId) (e : Evt) : St :=
   if srcRole s e != .user then
@@ -488,10 +494,7 @@ def pushEvtStore (s : St) (m : ModId) (e : Evt) : St :=
         | none => md
     else s
   else
-    let e' := match e.src.bind (fun i => s.srcs[i]?) with
-      | some x => { e with userdata := x.userptr }
-      | none => e
-    s.updMod m fun md => { md with batch := md.batch ++ [e'] }
+    s.updMod m fun md => { md with batch := md.batch ++ [stampEvt s e] }
 
 /-- `push_evt` -/
 def pushEvtP (m : ModId) (e : Evt) : Prog Unit := do
